@@ -18,7 +18,10 @@ SPEC = os.path.join(ROOT, "spec")
 # selftest runs against a scratch copy of the repository: it points these elsewhere
 HARNESS = os.environ.get("CLV_HARNESS_DIR", os.path.join(ROOT, "harness"))
 OUTDIR = os.environ.get("CLV_OUT_DIR", ROOT)
-JAVA_TRACE = "-Xss1g -Dtlc2.tool.queue.IStateQueue=StateDeque"
+# a trace run holds the deserialised trace (about 25 bytes per byte of NDJSON, chunks of 64 MB); without a cap
+# each JVM may grow to a quarter of the machine's memory before it collects, and up to 16 used to run at once
+JAVA_TRACE = "-Xss1g -Xmx6g -Dtlc2.tool.queue.IStateQueue=StateDeque"
+_TRACE_SLOTS = __import__("threading").BoundedSemaphore(6)
 
 
 # negative: killed by that signal; 3: the harness's watchdog saw one call into the code under test not
@@ -340,7 +343,8 @@ class Ctx:
         self._n += 1
         result = self.path("result-%s-%d.json" % (label or module, self._n))
         env = {"TRACE": trace, "RESULT": result}
-        res = self._tlc(module, cfg or module + ".cfg", env, 1, timeout, java_opts=JAVA_TRACE)
+        with _TRACE_SLOTS:
+            res = self._tlc(module, cfg or module + ".cfg", env, 1, timeout, java_opts=JAVA_TRACE)
         out = res["out"]
         if res["rc"] != 0 or "No error has been found" not in out or not os.path.exists(result):
             tail = "\n".join(l for l in out.splitlines() if not l.startswith("Progress"))[-3000:]
